@@ -46,7 +46,7 @@ def inst_config_mirror(cx, iid):
                 "tx_frame_base_id": r"arg1\.state@Pending\.0\.local_nonce", "rx_frame_base_id": r"arg2\.nonce",
                 "tx_packet_base_id": rx_comm("bitand", r"arg1\.state@Pending\.0\.local_nonce", r"packet_id::MASK"),
                 "rx_packet_base_id": rx_comm("bitand", r"arg2\.nonce", r"packet_id::MASK"),
-                "tx_bandwidth_limit": rx_comm("Ord::min", r"cast<u32>\(arg1\.config\.endpoint_config\.max_send_rate\)", r"arg2\.max_receive_rate"),
+                "tx_bandwidth_limit": rx_comm("Ord::min", r"""(?:cast<u32>\(Ord::min\((?:arg1\.config\.endpoint_config\.max_send_rate,cast<usize>\(core::num::<impl u32>::MAX\)|cast<usize>\(core::num::<impl u32>::MAX\),arg1\.config\.endpoint_config\.max_send_rate)\)\)|Result::unwrap_or\((?:u32::try_from|TryFrom::try_from|TryInto::try_into)\(arg1\.config\.endpoint_config\.max_send_rate\),core::num::<impl u32>::MAX\))""", r"arg2\.max_receive_rate"),
                 "tx_alloc_limit": r"cast<usize>\(arg2\.max_receive_alloc\)", "rx_alloc_limit": r"arg1\.config\.endpoint_config\.max_receive_alloc",
                 "tx_frame_window_size": "MAX_FRAME_WINDOW_SIZE", "rx_frame_window_size": "MAX_FRAME_WINDOW_SIZE",
                 "tx_packet_window_size": "MAX_PACKET_WINDOW_SIZE", "rx_packet_window_size": "MAX_PACKET_WINDOW_SIZE",
@@ -55,7 +55,7 @@ def inst_config_mirror(cx, iid):
                 "tx_frame_base_id": st + r"\.local_nonce", "rx_frame_base_id": st + r"\.remote_nonce",
                 "tx_packet_base_id": rx_comm("bitand", st + r"\.local_nonce", r"packet_id::MASK"),
                 "rx_packet_base_id": rx_comm("bitand", st + r"\.remote_nonce", r"packet_id::MASK"),
-                "tx_bandwidth_limit": rx_comm("Ord::min", r"cast<u32>\(arg1\.config\.endpoint_config\.max_send_rate\)", st + r"\.remote_max_receive_rate"),
+                "tx_bandwidth_limit": rx_comm("Ord::min", r"""(?:cast<u32>\(Ord::min\((?:arg1\.config\.endpoint_config\.max_send_rate,cast<usize>\(core::num::<impl u32>::MAX\)|cast<usize>\(core::num::<impl u32>::MAX\),arg1\.config\.endpoint_config\.max_send_rate)\)\)|Result::unwrap_or\((?:u32::try_from|TryFrom::try_from|TryInto::try_into)\(arg1\.config\.endpoint_config\.max_send_rate\),core::num::<impl u32>::MAX\))""", st + r"\.remote_max_receive_rate"),
                 "tx_alloc_limit": r"cast<usize>\(" + st + r"\.remote_max_receive_alloc\)", "rx_alloc_limit": r"arg1\.config\.endpoint_config\.max_receive_alloc",
                 "tx_frame_window_size": "MAX_FRAME_WINDOW_SIZE", "rx_frame_window_size": "MAX_FRAME_WINDOW_SIZE",
                 "tx_packet_window_size": "MAX_PACKET_WINDOW_SIZE", "rx_packet_window_size": "MAX_PACKET_WINDOW_SIZE",
